@@ -1,13 +1,69 @@
 (* Properties/C10.v — statements only.  C10: to-be-closed variables are closed
-   exactly once, in reverse order, on every exit, with the in-flight error.
-   Models: GV.Close.Skel (skeleton language + structural reference semantics),
-   GV.Close.Compile (mirror of ir/context.go, ir/builder.go, the scope cases of
-   astcomp/compstat.go), GV.Close.VMclose (mirror of the run-time close stack). *)
+   exactly once, in reverse order, on every exit, with the in-flight error;
+   handler errors replace it and the rest still run; a pending close disables
+   tail calls.
+   Models: GV.Close.Skel (skeleton language, structural reference semantics,
+   trace predicates brackets/errflow), GV.Close.Compile (mirror of
+   ir/context.go, ir/builder.go, the scope cases of astcomp/compstat.go),
+   GV.Close.VMclose (mirror of the run-time close stack: runtime/thread.go,
+   runtime/luacont.go, lib/base/pcall.go).
+   Every theorem about the reference semantics quantifies over ALL skeleton
+   programs (blocks, locals, <close>, loops, break, goto/labels, calls, pcall,
+   coroutines closed while suspended, raise, return), all decision streams and
+   all amounts of fuel; `Done` = the run terminated within the fuel.
+   No axioms. *)
 From Coq Require Import List Arith.
-From GV Require Import Close.Skel Close.Compile Close.VMclose Close.CompileProofs.
+From GV Require Import Close.Skel Close.Compile Close.VMclose Close.CompileProofs Close.RefProofs Close.SimProofs.
 Import ListNotations.
 
-(* A pending close action disables the tail call. *)
+(* exactly once: every closable value is closed as often as it was created *)
+Theorem C10_close_exactly_once : forall fuel b d ev o id,
+  run_ref fuel b d = Done (ev, o) -> count_close id ev = count_open id ev.
+Proof. exact close_exactly_once. Qed.
+Print Assumptions C10_close_exactly_once.
+
+(* reverse order: closes are well bracketed with the creations (each close is
+   that of the innermost pending variable) and nothing is pending at the end *)
+Theorem C10_close_reverse_order : forall fuel b d ev o,
+  run_ref fuel b d = Done (ev, o) -> brackets [] ev = Some [].
+Proof. exact close_reverse_order. Qed.
+Print Assumptions C10_close_reverse_order.
+
+(* before the receiver: the trace of every statement / scope / loop — for
+   every exit kind — is balanced on its own, so nothing it declared is still
+   pending when the code that receives control emits its first event *)
+Theorem C10_close_before_receiver : forall fuel,
+  (forall t s ev o s', run_stmt fuel t s = Done (ev, o, s') -> forall p, brackets p ev = Some p) /\
+  (forall endc b s ev o s', run_scope fuel endc b b s = Done (ev, o, s') -> forall p, brackets p ev = Some p) /\
+  (forall rep b s ev o s', run_loop fuel rep b s = Done (ev, o, s') -> forall p, brackets p ev = Some p).
+Proof. exact close_before_receiver. Qed.
+Print Assumptions C10_close_before_receiver.
+
+(* in-flight error: every handler gets the error in flight (nil on normal
+   exits), ordinary code never runs while an error is in flight, pcall and the
+   coroutine boundary report it *)
+Theorem C10_close_gets_inflight_error : forall fuel b d ev o,
+  run_ref fuel b d = Done (ev, o) -> errflow None ev = Some (err_of o).
+Proof. exact close_gets_inflight_error. Qed.
+Print Assumptions C10_close_gets_inflight_error.
+
+(* a handler's error replaces the error in flight (the next handler gets it)
+   and the remaining handlers still run (the trace stays complete) *)
+Theorem C10_handler_error_replaces_and_rest_still_run :
+  forall fuel b d ev o pre id a h mid id' a' post,
+  run_ref fuel b d = Done (ev, o) ->
+  ev = pre ++ EvClose id a :: EvRaise h :: mid ++ EvClose id' a' :: post ->
+  (forall e, In e mid -> match e with EvOpen _ | EvClose _ _ => True | _ => False end) ->
+  brackets [] ev = Some [] /\ (mid = [] -> a' = Some h).
+Proof. exact handler_error_replaces_and_rest_still_run. Qed.
+Print Assumptions C10_handler_error_replaces_and_rest_still_run.
+
+Theorem C10_non_closable_value_is_error : forall fuel endc id rest s,
+  run_block (S fuel) endc (BCons (SLocal (VBad id)) rest) s = Done ([EvRaise EMissing], OError EMissing, s).
+Proof. exact non_closable_value_is_error. Qed.
+Print Assumptions C10_non_closable_value_is_error.
+
+(* A pending close action disables the tail call (and only that does). *)
 Theorem C10_tailcall_disabled_with_pending_close :
   forall cx n tl fb ec body c n',
     0 < top_height cx ->
@@ -15,3 +71,35 @@ Theorem C10_tailcall_disabled_with_pending_close :
     exists c', compile_fun body = Some c' /\ c = [ICall c'; IRet].
 Proof. exact tailcall_disabled_with_pending_close. Qed.
 Print Assumptions C10_tailcall_disabled_with_pending_close.
+
+Theorem C10_tailcall_when_nothing_pending :
+  forall cx n tl fb ec body c n',
+    top_height cx = 0 ->
+    compile_stats cx n tl fb ec (BRet (RCall body)) = Some (c, n') ->
+    exists c', compile_fun body = Some c' /\ c = [ITailCall c'].
+Proof. exact tailcall_when_nothing_pending. Qed.
+Print Assumptions C10_tailcall_when_nothing_pending.
+
+(* compile_correct, stage reached (_partial): function bodies made of any
+   sequence of local statements (plain / <close> nil / closable, with or
+   without raising handler / non-closable), marks, raise, return — arbitrarily
+   deep nesting of the scopes compileBlockNoPop opens, exits by falling off the
+   end, return and error — run under pcall: the program compiles and the
+   close-stack VM on the compiled code yields the reference semantics' events
+   and outcome.  Missing: do-blocks, loops/break, goto/labels, calls, nested
+   pcall, coroutines (checked by evaluation on every generated program). *)
+Theorem C10_compile_correct_partial : forall b, straight b = true ->
+  forall fuel d ev o, run_ref fuel b d = Done (ev, o) ->
+  exists c fuel', compile b = Some c /\ run_vm fuel' c d = Done (ev, vout_of o).
+Proof. exact compile_correct_partial. Qed.
+Print Assumptions C10_compile_correct_partial.
+
+(* On the full language the faithful VM model refutes compile_correct:
+   coroutine.close of a coroutine suspended inside pcall skips the handlers
+   pending inside that pcall. *)
+Theorem C10_compile_correct_coroutine_close_refuted :
+  exists b c, compile b = Some c /\
+    run_ref 50 b [] = Done ([EvOpen 1; EvClose 1 None; EvCo None; EvPcall None], ONormal) /\
+    run_vm 50 c [] = Done ([EvOpen 1; EvCo None; EvPcall None], VReturn).
+Proof. exact compile_correct_coroutine_close_refuted. Qed.
+Print Assumptions C10_compile_correct_coroutine_close_refuted.
